@@ -39,6 +39,9 @@ CLAIMS["C11"] = ("7.11", "Theorems on the model of as_pubo_format / as_qubo_form
 CLAIMS["C12"] = ("7.12", "Theorems: for EVERY K>=1 (no width bound) the bit patterns of length log2_up(K+1) weighted by 1,2,..,2^(n-2),K-2^(n-1)+1 reach exactly 0..K; the model of log_encode returns, for an integer variable with finite bound, n fresh binaries (ids next_id.., kind binary, bound [0,1]) and a linear expression whose values over all bit assignments are exactly the integers ceil(l)..floor(u); a single-integer range gives a constant and no variables; success iff known id, integer kind, finite bound containing an integer. Correspondence: every width 1..64 (thorough 1..4096), random and fractional bounds, widths to 2^40, every error condition under a watchdog (instance unchanged on error).",
          "float log2/ceil of the SDK is modelled by N.log2_up (validated by the correspondence on all sampled widths). The 'fix:' commit 91d0376 made infinite bounds an error instead of a hang.")
 
+CLAIMS["C07"] = ("7.7", "Both ties. Translator: the message schema is regenerated on every run from proto/*.proto (own proto3 reader cross-checked against protoc's descriptor set), from the #[prost] attributes / Rust types / enums of ommx.v1.rs and from the serialized descriptors in *_pb2.py, as three closed Coq terms; the obligations schemas_agree (rust = proto = python in field numbers, names, types, labels, enum values), schema_wf and schema_supported are re-proved each run. Hand-written model + theorems (closed under the global context, coqchk: no axioms): varint and record round trip; codec_roundtrip, codec_unknown_fields, codec_unset_oneof for EVERY well-formed schema, hence the regenerated one; comparator soundness. Correspondence: prost and protoc agree with the model on generated values of all 31 message types and 5 enums (every field set/unset, maps, oneofs, extremes, unknown fields, unpacked and merged encodings, legacy fields, the stored artifact) and on content by field name via prost Debug. When an obligation fails the check searches a concrete failing value (else reports no-failing-input-found).",
+         "Python: static schema only (no protobuf runtime in the sandbox). Not proved: decoding of arbitrary non-model encodings (codec_decode_any_encoding; exercised by the protoc / unpacked / merge streams). Trusted: translate_schema.py (self-cross-checked against protoc), Codec.v as a model of prost, tools/gen/wire.py (text printer, Debug reader), protoc 3.21.12. -0.0 is identified with +0.0 for prost re-encodings only, and counted.")
+
 PENDING = {
 }
 
